@@ -48,7 +48,9 @@ def _alarm_handler(signum, frame):
 def cpu_alarm(seconds):
     """Interrupt pure-Python work of the engine after `seconds` of CPU time."""
     old = signal.signal(signal.SIGVTALRM, _alarm_handler)
-    signal.setitimer(signal.ITIMER_VIRTUAL, seconds)
+    # re-armed every CPU second after the first expiry: an alarm that lands inside a gc
+    # callback (Hypothesis registers one) is swallowed as "Exception ignored in ..."
+    signal.setitimer(signal.ITIMER_VIRTUAL, seconds, 1.0)
     try:
         yield
     finally:
